@@ -23,6 +23,7 @@ import AbtemVerif.Model.PrismEnsemble
 import AbtemVerif.Gen.PrismR
 import AbtemVerif.Lib.DFT
 import AbtemVerif.Lib.DFT2
+import AbtemVerif.Props.C05
 import Mathlib.Analysis.SpecialFunctions.Complex.Circle
 import Mathlib.Tactic.Ring
 import Mathlib.Tactic.Linarith
@@ -239,6 +240,48 @@ theorem ctf_polar_coordinates (kx ky wl : ℝ) (hk : (kx, ky) ≠ (0, 0)) :
     rw [Complex.sin_arg, habs]
     have : Real.sqrt (kx ^ 2 + ky ^ 2) ≠ 0 := by rw [← habs]; exact norm_ne_zero_iff.mpr hz
     field_simp
+
+/-! ### bridge to the probe of C05 -/
+section Bridge
+variable {ι : Type*} [Fintype ι]
+
+/-- the PRISM coefficient vector (CTF value `A·aberr`, divided by its ℓ² norm, times the unit-modulus position
+coefficient) IS the normalised spectrum `Probe._calculate_array` builds (C05's `normalize (probeSpectrum …)`) -/
+theorem prism_coefficients_eq_probe_spectrum (A : ι → ℝ) (aberr pos : ι → ℂ) (hpos : ∀ k, Complex.normSq (pos k) = 1) :
+    (fun k => ctfNormalise ((A k : ℂ) * aberr k) (∑ j, ctfNormSummand ((A j : ℂ) * aberr j)) * pos k)
+      = AbtemVerif.Props.C05.normalize (AbtemVerif.Props.C05.probeSpectrum pos A aberr) := by
+  funext k
+  unfold AbtemVerif.Props.C05.normalize AbtemVerif.Props.C05.probeSpectrum AbtemVerif.Gen.ProbeC.normDivide
+    AbtemVerif.Gen.ProbeR.normFactor ctfNormalise
+  have he : energy (fun k => pos k * (A k : ℂ) * aberr k) = ∑ j, ctfNormSummand ((A j : ℂ) * aberr j) := by
+    unfold energy
+    apply Finset.sum_congr rfl; intro j _
+    rw [ctf_norm_summand]
+    show Complex.normSq (pos j * (A j : ℂ) * aberr j) = _
+    rw [mul_assoc, Complex.normSq_mul, hpos j, one_mul]
+  rw [he]; ring
+
+/-- `prism_probe_eq_probe_array`: the probe the reduction superposes, `F⁻¹ c` with the PRISM coefficients, is the array
+`Probe.build` returns (C05's `probeArray`: the generated order of operations kernel → aperture → aberrations → normalise →
+inverse transform) for the same aperture `A`, aberration factor and scan-position kernel. -/
+theorem prism_probe_eq_probe_array (P : FourierPair ι) (A : ι → ℝ) (aberr pos : ι → ℂ)
+    (hpos : ∀ k, Complex.normSq (pos k) = 1) :
+    P.Finv (fun k => ctfNormalise ((A k : ℂ) * aberr k) (∑ j, ctfNormSummand ((A j : ℂ) * aberr j)) * pos k)
+      = AbtemVerif.Props.C05.probeArray P pos A aberr := by
+  unfold AbtemVerif.Props.C05.probeArray
+  rw [AbtemVerif.Props.C05.probeSpectrumOps_eq, prism_coefficients_eq_probe_spectrum A aberr pos hpos]
+
+/-- `reduce_eq_multislice_of_built_probe`: the headline for interpolation 1 — reducing the scattering matrix with the coefficients
+the code computes equals running multislice on the probe `Probe.build` makes, for every transform pair, potential (slice
+list), aperture, aberration set and position. -/
+theorem reduce_eq_multislice_of_built_probe [DecidableEq ι] (P : FourierPair ι) (tr : Bool) (slices : List (Slice ι))
+    (A : ι → ℝ) (aberr pos : ι → ℂ) (hpos : ∀ k, Complex.normSq (pos k) = 1) :
+    ∑ k, (ctfNormalise ((A k : ℂ) * aberr k) (∑ j, ctfNormSummand ((A j : ℂ) * aberr j)) * pos k)
+        • multislice P tr slices (planeWave P 1 k)
+      = multislice P tr slices (AbtemVerif.Props.C05.probeArray P pos A aberr) := by
+  rw [reduce_eq_multislice_probe, one_smul, prism_probe_eq_probe_array P A aberr pos hpos]
+
+end Bridge
 
 /-! ### the concrete DFT: numpy's plane wave is the inverse transform of a delta -/
 section Concrete
@@ -770,7 +813,7 @@ theorem reduce_to_waves_index (planes : List (Nat → Nat → ℂ)) (n₀ n₁ :
    `SMatrixArray.reduce` returns, for position `p`, the window `w₀ × w₁` of the full superposition `Σ_k c_k(p) S_k` whose
    corner is `rint(p / sampling − w // 2)` taken periodically, independently of the other positions of the batch; in
    vacuum this window is the probe of the window-sized cell.
-   Proved (`reduce_windows_index`, restated below for a superposition plane): the whole cropping pipeline
+   Proved (`reduce_windows_index`, `reduce_to_waves_index`): the whole cropping pipeline
    `minimum_crop → wrapped_crop_2d (block assembly or padding fallback) → batch_crop_2d`, applied to any plane, returns
    exactly those periodic windows, for every array and window size, every batch and every position.
    The order in which the code works — crop each plane `S_k`, combine the crops with `tensordot`, cut the batch windows —
@@ -779,13 +822,6 @@ theorem reduce_to_waves_index (planes : List (Nat → Nat → ℂ)) (n₀ n₁ :
    clamping, `.size == 0` shortcuts, `concatenate`, `np.pad(mode="wrap")`, advanced indexing) around the generated
    expressions, tied by exact differential correspondence; (iii) the physical statements (vacuum window = probe of the
    window-sized cell; with a potential PRISM interpolation is an approximation) are checked by the conformance oracle. -/
-theorem reduce_window_partial {κ : Type} (K : Finset κ) (c : κ → ℂ) (S : κ → Nat → Nat → ℂ)
-    (n₀ n₁ : Nat) (h₀ : 0 < n₀) (h₁ : 0 < n₁) (w : Nat × Nat) (hw₀ : 0 < w.1) (hw₁ : 0 < w.2)
-    (pixel : List (Rat × Rat)) (hp : pixel ≠ []) :
-    reduceWindows (fun i j => ∑ k ∈ K, c k * S k i j) n₀ n₁ w pixel
-      = .ok (pixel.map (expectedWindow (fun i j => ∑ k ∈ K, c k * S k i j) n₀ n₁ w)) :=
-  reduce_windows_index _ n₀ n₁ h₀ h₁ w hw₀ hw₁ pixel hp
-
 end Crop
 
 /-! ## Part D — frozen-phonon bookkeeping of the eager S-matrix path -/
